@@ -1,12 +1,14 @@
 """C12 — mempool-generated PopData is valid as-is for the next block, side-effect free."""
+import glob
 import os
 
 import vlib
 from props import _mempool as M
 from props import C13 as B
+from props import _gencorr as G
 
 LEVEL = "proof"
-HARNESSES = [("h_mempool", "rel")]
+HARNESSES = [("h_mempool", "rel"), ("h_count", "rel")]
 ASSUMPTIONS = [
     "the configured maximum PopData size is at least the size of an empty PopData (10 bytes)",
     "the validity LEVEL memo of a block (low three status bits) may be raised by generatePopData (a VBK fork block that "
@@ -45,7 +47,16 @@ META = {
             "C12_generate_pool_effect (tryConnectPayloads + cleanUp: no assertion, no payload appears), "
             "C12_selection_example, and C12_selection_submission_order_refuted / C12_selection_equal_height_refuted "
             "(the result is NOT a function of pool content and tree: rel.vtbs keeps the submission order under the VTB "
-            "limit; equal-height relations come in hash-map / std::sort order).",
+            "limit; equal-height relations come in hash-map / std::sort order). The extracted counting model "
+            "(can_fit / popsize / filter_fit / est_kept / fits; model `Gen`) runs against the REAL CountingContext and "
+            "PopData::estimateSize on generated candidate sequences of real payloads of chosen sizes under generated "
+            "limits (harness/h_count.cpp, props/_gencorr.py): canFit verdict, the figure compared with the size limit "
+            "and the running size per candidate, estimateSize / assertPopDataFits conditions of the kept set; a "
+            "difference is a violation. The extracted selection (GenDefs.generatePop) runs on every generatePopData "
+            "call of the histories: relations in the order the implementation visited them and the verdicts of "
+            "mutator.add as recorded through the callback overload, canFit and the duplicate test being the model's "
+            "own; the returned context / VTB / ATV id lists must be equal in order (untranslatable calls are counted "
+            "in gen_skipped).",
     "note": "Trusted: Coq kernel, C++ harness and World interpreter. Stateful validity of the result "
             "is proved on the abstract machine only (exec deterministic; that the real commands form such a machine "
             "is C01/C04's) and observed on the implementation; sizes are abstract numbers in the "
@@ -71,16 +82,37 @@ def run(ctx):
         ctx.broken.append("harness-build(rel): " + rlog[-400:])
         return
     rel = hr["h_mempool"]
+    okc, hc, clog = vlib.build_harness(["h_count"], "rel")
+    okg, gen_model, glog = vlib.build_model("Gen")
+    if not okc:
+        ctx.broken.append("harness-build(h_count): " + clog[-400:])
+    if not okg:
+        ctx.broken.append("model-build(Gen): " + glog[-400:])
+    if ctx.replay and ctx.replay.get("harness") == "h_count":
+        if okc and okg:
+            G.replay_count(ctx, hc["h_count"], gen_model)
+        return
     runner = B.two_step(rel, None, ctx.work)
+    if ctx.replay and ctx.replay.get("stage") == "gen-model":
+        if okg:
+            G.replay_gen(ctx, rel, gen_model)
+        return
     if ctx.replay and ctx.replay.get("harness") == "h_mempool":
         B.replay(ctx, runner, "rel")
         return
     nc = B.run_corpus(ctx, "C12", runner, "rel")
+    if okc and okg:
+        G.count_stage(ctx, hc["h_count"], gen_model)
     if ctx.tier == "quick":
         n_hist, n_steps, budget = 36, 60, 90
     else:
         n_hist, n_steps, budget = 400, 100, 1500
-    tot, scripts = B.histories(ctx, "C12", rel, n_hist, n_steps, M.C12History, CFGS, budget, None, runner)
+    tracebase = os.path.join(ctx.work, "gentrace")
+    os.environ["VERIF_GEN_TRACE"] = tracebase      # every gen of the histories leaves its selection trace there
+    try:
+        tot, scripts = B.histories(ctx, "C12", rel, n_hist, n_steps, M.C12History, CFGS, budget, None, runner)
+    finally:
+        os.environ.pop("VERIF_GEN_TRACE", None)
     ctx.cov["evaluations"] = tot["lines"] + nc
     ctx.cov["distinct_nontrivial"] = tot["gens"]
     ctx.cov["rule"] = ("non-trivial = generatePopData calls checked by the full oracle (limits, stateless check, not on "
@@ -88,5 +120,7 @@ def run(ctx):
                        "applied = calls followed by the real next block on the same instance")
     ctx.cov["mempool_histories"] = tot
     ctx.cov["traces_validated_against_impl"] = tot["applied"]
-    ctx.cov["disagreements_checked"] = tot["gens"]
+    ctx.cov["disagreements_checked"] = tot["gens"] + ctx.cov.get("count_cases_compared", 0)
     ctx.sample({"histories": tot["histories"], "gens": tot["gens"], "applied": tot["applied"], "stats": tot["stats"]})
+    if okg:
+        G.gen_stage(ctx, gen_model, sorted(glob.glob(tracebase + ".*")), scripts)
